@@ -270,6 +270,7 @@ func (v *VC) mergeHeaps(conds []string, heaps []*Heap) *Heap {
 type loopMod struct {
 	call    bool
 	ghosts  bool
+	ghostSet map[string]bool
 	unknown map[string]bool
 	known   map[string]map[string]bool
 }
@@ -342,6 +343,11 @@ func (v *VC) modOfCall(fn *ssa.Function, c *ssa.CallCommon, root func(ssa.Value)
 	}
 	if c.IsInvoke() {
 		ct := v.P.db.Contracts[ifaceMethodKey(c)]
+		if ct != nil {
+			for _, gs := range ct.Sets {
+				m.noteGhost(gs.Var)
+			}
+		}
 		if ct != nil && ct.ModNothing {
 			if len(ct.Sets) > 0 {
 				m.ghosts = true
@@ -370,6 +376,10 @@ func (v *VC) modOfCall(fn *ssa.Function, c *ssa.CallCommon, root func(ssa.Value)
 		return
 	}
 	if ct := v.P.contractFor(callee); ct != nil && !ct.Inline {
+		for g := range v.P.ghostMod(callee, map[*ssa.Function]bool{}) {
+			m.noteGhost(g)
+			m.ghosts = true
+		}
 		if len(ct.Sets) > 0 {
 			m.ghosts = true
 		}
@@ -397,6 +407,9 @@ func (v *VC) modOfCall(fn *ssa.Function, c *ssa.CallCommon, root func(ssa.Value)
 		}
 		m.call = m.call || inner.call
 		m.ghosts = m.ghosts || inner.ghosts
+		for g := range inner.ghostSet {
+			m.noteGhost(g)
+		}
 		for k := range inner.unknown {
 			m.unknown[k] = true
 		}
@@ -408,6 +421,13 @@ func (v *VC) modOfCall(fn *ssa.Function, c *ssa.CallCommon, root func(ssa.Value)
 		return
 	}
 	m.call, m.ghosts = true, true
+}
+
+func (m *loopMod) noteGhost(g string) {
+	if m.ghostSet == nil {
+		m.ghostSet = map[string]bool{}
+	}
+	m.ghostSet[g] = true
 }
 
 func (m *loopMod) addRoot(k, r string) {
@@ -553,7 +573,7 @@ func (v *VC) genBlock(b *ssa.BasicBlock, initHeap *Heap) {
 			}
 		}, v.rootOf, mod, 0)
 		oldClk, newClk := v.advanceClock(heap)
-		ei := &epochInfo{kind: "havoc", parent: heap.epoch, all: mod.call, ghosts: mod.ghosts, unknown: mod.unknown, known: map[string][]string{}, entryClock: oldClk, newClock: newClk}
+		ei := &epochInfo{kind: "havoc", parent: heap.epoch, all: mod.call, ghosts: mod.ghosts, unknown: mod.unknown, known: map[string][]string{}, entryClock: oldClk, newClock: newClk, stable: v.P.db.StableGhosts, ghostSet: mod.ghostSet}
 		for k, rs := range mod.known {
 			for r := range rs {
 				ei.known[k] = append(ei.known[k], r)
@@ -574,7 +594,7 @@ func (v *VC) genBlock(b *ssa.BasicBlock, initHeap *Heap) {
 			v.heapVer++
 			nm := fmt.Sprintf("H%d_%s", v.heapVer, sanitize(k))
 			v.declHeap(nm, k)
-			v.emitFrame(k, nm, old, ei.known[k], ei.extOnly(k), oldClk, newClk)
+			v.emitFrame(k, nm, old, ei.known[k], ei.extOnly(k), oldClk, newClk, "")
 			heap.m[k] = nm
 		}
 		heap.epoch = ne
@@ -669,6 +689,7 @@ func (v *VC) genInstr(in ssa.Instruction, g string, heap *Heap) {
 		v.allocID[i] = id
 		v.define(i, fmt.Sprintf("(obj %s)", id))
 		et := i.Type().Underlying().(*types.Pointer).Elem()
+		v.assume("true", v.tyofFact(et, v.val(i)))
 		if i.Comment != "" && token.IsIdentifier(i.Comment) {
 			v.curAddr[i.Comment] = i
 			delete(v.curVars, i.Comment)
@@ -688,6 +709,7 @@ func (v *VC) genInstr(in ssa.Instruction, g string, heap *Heap) {
 		x := v.val(i.X)
 		v.safety("nil-deref", g, fmt.Sprintf("(not (= %s nilp))", x), i.Pos())
 		v.define(i, fmt.Sprintf("(fld %s %d)", x, i.Field))
+		v.assume(g, v.tyofFact(i.Type().Underlying().(*types.Pointer).Elem(), v.val(i)))
 	case *ssa.IndexAddr:
 		x := v.val(i.X)
 		idx := v.val(i.Index)
@@ -695,6 +717,7 @@ func (v *VC) genInstr(in ssa.Instruction, g string, heap *Heap) {
 		case *types.Slice:
 			v.safety("index-bounds", g, fmt.Sprintf("(and (<= 0 %s) (< %s (s-len %s)))", idx, idx, x), i.Pos())
 			v.define(i, fmt.Sprintf("(selem %s %s)", x, idx))
+			v.assume(g, v.tyofFact(u.Elem(), v.val(i)))
 		case *types.Pointer:
 			arr := u.Elem().Underlying().(*types.Array)
 			v.safety("nil-deref", g, fmt.Sprintf("(not (= %s nilp))", x), i.Pos())
@@ -786,9 +809,25 @@ func (v *VC) genInstr(in ssa.Instruction, g string, heap *Heap) {
 			d := v.defers[k]
 			if d.block.Dominates(i.Block()) {
 				v.doCall(d.call, g, heap, i.Pos())
-			} else {
-				v.unsupp("conditional defer (not executed in the model)")
+				continue
 			}
+			if !reaches(d.block, i.Block()) {
+				continue // the defer statement is not on any path to this exit
+			}
+			if v.inLoop(d.block) {
+				v.unsupp("defer inside a loop (not executed in the model)")
+				continue
+			}
+			// the deferred call runs iff this execution passed through the defer statement:
+			// block guards are path predicates, so that is exactly the guard of its block
+			gd, ok := v.guard[d.block]
+			if !ok {
+				continue
+			}
+			taken := heap.clone()
+			v.doCall(d.call, fmt.Sprintf("(and %s %s)", g, gd), taken, i.Pos())
+			m := v.mergeHeaps([]string{gd, "(not " + gd + ")"}, []*Heap{taken, heap.clone()})
+			heap.m, heap.epoch = m.m, m.epoch
 		}
 	case *ssa.Field:
 		v.define(i, fmt.Sprintf("(%s-f%d %s)", v.sortOf(i.X.Type()), i.Field, v.val(i.X)))
@@ -876,6 +915,33 @@ func goBodyReadOnly(fn *ssa.Function) bool {
 		}
 	}
 	return true
+}
+
+func reaches(from, to *ssa.BasicBlock) bool {
+	seen := map[*ssa.BasicBlock]bool{}
+	stack := []*ssa.BasicBlock{from}
+	for len(stack) > 0 {
+		b := stack[len(stack)-1]
+		stack = stack[:len(stack)-1]
+		if b == to {
+			return true
+		}
+		if seen[b] {
+			continue
+		}
+		seen[b] = true
+		stack = append(stack, b.Succs...)
+	}
+	return false
+}
+
+func (v *VC) inLoop(b *ssa.BasicBlock) bool {
+	for _, body := range v.loopBody {
+		if body[b] {
+			return true
+		}
+	}
+	return false
 }
 
 func (v *VC) contractAllowsPanic() bool {
